@@ -30,6 +30,16 @@ func H_intrinsics() {
 	vObserve("join", strings.Join([]string{s, "x", s}, ", "))
 	vObserve("contains", strings.Contains(s, "a="))
 	vObserve("index", strings.Index(s, "="))
+	sepf := func(r rune) bool { return r == ' ' || r == ',' }
+	vObserve("fieldsfunc", strings.FieldsFunc(s, sepf))
+	vObserve("indexfunc", strings.IndexFunc(s, sepf))
+	vObserve("trimfunc", strings.TrimFunc(s, sepf))
+	vObserve("equalfold", strings.EqualFold(s, "Ab"))
+	vObserve("tolower", strings.ToLower(s))
+	vObserve("trim", strings.Trim(s, "-="))
+	vObserve("count", strings.Count(s, "a"))
+	vObserve("lastindex", strings.LastIndex(s, "="))
+	vObserve("replace", strings.Replace(s, "a", "bb", -1))
 	vObserve("sprintf", fmt.Sprintf("<%s|%v|%d>", s, s, len(s)))
 	vObserve("less", s < "b")
 	vObserve("concat", "-"+s+s[:len(s)/2])
